@@ -44,7 +44,7 @@ import (
 type stubApp struct{}
 
 func (stubApp) GetAngineHooks() types.Hooks { return types.Hooks{} }
-func (stubApp) CompatibleWithAngine()        {}
+func (stubApp) CompatibleWithAngine()       {}
 func (stubApp) CheckTx(bs []byte) (common.Address, uint64, error) {
 	return common.Address{}, 0, nil
 }
@@ -382,9 +382,9 @@ func (n *admNode) judge(t *tctx, si int, a attempt, want, got string, peer *p2p.
 		t.rep.count("adm_admitted")
 		if why := n.oracle(a, peer); why != "" {
 			t.fail(si, "property", true, "Admitted:"+map[string]string{
-				"its authenticated key is on the refuse list":                                   "refuselisted",
-				"its announced key is not the key it authenticated with":                        "identity-mismatch",
-				"CA admission applies and it carries no well-formed signature":                  "no-signature",
+				"its authenticated key is on the refuse list":                                "refuselisted",
+				"its announced key is not the key it authenticated with":                     "identity-mismatch",
+				"CA admission applies and it carries no well-formed signature":               "no-signature",
 				"CA admission applies and no CURRENT authority's key verifies its signature": "no-current-authority"}[why],
 				fmt.Sprintf("peer %s (announcing %s, signature by %s over %s) was admitted although %s", a.auth, a.ann, a.signer, a.over, why), want, got)
 			n.dropPeers()
